@@ -25,20 +25,26 @@ B3Leaves == << LeafRec(2, 0, 3, 1, <<<<108>>, <<108, 105, 115, 116>>, <<101>>>>)
 B3Cont(c) == IF c = 1 THEN [defs |-> <<3, 2, 3, 0, 1, 2>>, reps |-> <<0, 1, 1, 0, 0, 0>>, vals |-> <<Tk(2, 0, 1), Tk(2, 0, 5)>>]
              ELSE [defs |-> <<1, 0, 1, 1>>, reps |-> <<0, 0, 0, 0>>, vals |-> <<Tk(5, 0, 2), Tk(5, 0, 6), Tk(5, 0, 7)>>]
 
-BaseElems(b) == IF b = 3 THEN B3Elems ELSE B1Elems
-BaseLeaves(b) == IF b = 3 THEN B3Leaves ELSE B1Leaves
-BaseCont(b, c) == IF b = 3 THEN B3Cont(c) ELSE B1Cont(c)
-BaseCuts(b, c) == IF b = 3 THEN (IF c = 1 THEN <<3, 6>> ELSE <<1, 4>>) ELSE <<2, 6>>
-BaseOpt(b) == IF b = 2 THEN [DefaultOpt EXCEPT !.useDict = TRUE, !.crc = "good"] ELSE [DefaultOpt EXCEPT !.crc = "good"]
+\* bases 4..6: the shapes of 1..3 with compressed pages (SNAPPY, LZ4, SNAPPY); bases 7..9: the shapes with two row groups
+Shape(b) == ((b - 1) % 3) + 1
+BaseCodec(b) == IF b \in {4, 6} THEN 1 ELSE IF b = 5 THEN 5 ELSE 0
+BaseGroups(b) == IF b >= 7 THEN 2 ELSE 1
+BaseElems(b) == IF Shape(b) = 3 THEN B3Elems ELSE B1Elems
+BaseLeaves(b) == IF Shape(b) = 3 THEN B3Leaves ELSE B1Leaves
+BaseCont(b, c) == IF Shape(b) = 3 THEN B3Cont(c) ELSE B1Cont(c)
+BaseCuts(b, c) == IF Shape(b) = 3 THEN (IF c = 1 THEN <<3, 6>> ELSE <<1, 4>>) ELSE <<2, 6>>
+BaseOpt(b) == IF Shape(b) = 2 THEN [DefaultOpt EXCEPT !.useDict = TRUE, !.crc = "good", !.codec = BaseCodec(b)]
+              ELSE [DefaultOpt EXCEPT !.crc = "good", !.codec = BaseCodec(b)]
 
 \* description with an optional page-header mutation on (column c, page k)
 Desc(b, pc, pk, hm) ==
     [elements |-> BaseElems(b), createdBy |-> <<114, 101, 102>>, extras |-> FALSE, sty |-> DefaultStyle,
-     rgs |-> << [numRows |-> IF b = 3 THEN 4 ELSE 6,
+     rgs |-> [g \in 1..BaseGroups(b) |->
+                [numRows |-> IF Shape(b) = 3 THEN 4 ELSE 6,
                  cols |-> [c \in 1..Len(BaseLeaves(b)) |->
                              MkChunk(BaseLeaves(b)[c], BaseCont(b, c), BaseCuts(b, c),
                                      LET o == IF BaseLeaves(b)[c].type = 0 THEN [BaseOpt(b) EXCEPT !.useDict = FALSE] ELSE BaseOpt(b)
-                                     IN IF c = pc THEN [o EXCEPT !.hmutPage = pk, !.hmut = hm] ELSE o)]] >>]
+                                     IN IF c = pc /\ g = 1 THEN [o EXCEPT !.hmutPage = pk, !.hmut = hm] ELSE o)]]]]
 NoMut == [kind |-> "none"]
 
 \* the k-th of n slices of a sequence
